@@ -77,8 +77,8 @@ func runC14(c *progCase) ([]Violation, *progStats) {
 			setupErr = err.Error()
 			return
 		}
-		for k, v := range base {
-			b.Add(ctx, k, v)
+		for k := 1; k <= 5; k++ { // fixed order (ranging over the map would make the run differ from process to process)
+			b.Add(ctx, k, base[k])
 		}
 		if err := tr.Commit(ctx); err != nil {
 			setupErr = err.Error()
